@@ -2,4 +2,4 @@ package main
 
 import "verifh/stmtrun"
 
-func init() { subcommands["stmtx"] = stmtrun.Run }
+func init() { subcommands["stmtx"] = stmtrun.Run; subcommands["txx"] = stmtrun.RunTx }
